@@ -8,7 +8,8 @@ class Contract:
                  may_raise=(), modifies=(), on_raise="unchanged", inline=False, ghost_exit=(),
                  props=(), for_classes=None, effects="deterministic", kwargs=None,
                  labels=None, exc_ensures=(), pure=False, havoc_all=False, abstract=False,
-                 replay=None, note=None, ghost_entry=(), opaque_result=False, axiom_sets=()):
+                 replay=None, note=None, ghost_entry=(), opaque_result=False, axiom_sets=(),
+                 preserves=(), assumed_ensures=(), lenient_types=False):
         self.qual = qual
         self.params = {k: S.parse_type(v) for k, v in (params or {}).items()}
         self.returns = S.parse_type(returns) if returns is not None else S.NONE
@@ -35,6 +36,11 @@ class Contract:
         self.labels = labels or {}
         self.opaque_result = opaque_result
         self.axiom_sets = list(axiom_sets)
+        # rely conditions of a callback: [(class, clause over x and old(...))] assumed, after the
+        # havoc, for every object of that class in scope (callbacks use only the public API)
+        self.preserves = list(preserves)
+        self.lenient_types = lenient_types
+        self.assumed_ensures = list(assumed_ensures)   # assumed at call sites, NOT verified (listed as assumptions)
 
 
 class LoopSpec:
@@ -74,6 +80,11 @@ class Registry:
         self.class_ids = {}
         self.ground = []         # ground/data obligations: (name, props, callable)
         self.axiom_sets = {}     # name -> [(formula, note)] : scoped dependency axioms
+        self.global_invs = []    # [(name, fn(eng, state) -> z3 Bool)]: global heap invariants (assumed at entry / after havoc)
+        self.static_refs = {}
+        self.immutable_fields = set()   # field keys written only by constructors (checked by a frame scan)
+        self.ghost_calls = {}    # (function qual, callee attribute name) -> {"asserts": [...], "assign": [...]}
+        self.variant = None
 
     # --- declaration API used by the sidecar files
     def contract(self, qual, **kw):
@@ -113,6 +124,9 @@ class Registry:
     def axiom(self, formula, note):
         self.axioms.append(formula)
         self.axiom_notes.append(note)
+
+    def ghost_before_call(self, qual, callee, asserts=(), assign=()):
+        self.ghost_calls[(qual, callee)] = {"asserts": list(asserts), "assign": list(assign)}
 
     def scoped_axiom(self, set_name, formula, note):
         self.axiom_sets.setdefault(set_name, []).append((formula, note))
